@@ -229,7 +229,10 @@ def run(cx):
             inc = len(st) == 1 and match('(add 1 (self index))', simplify(b.dag().rvalue(st[0].data['rv'], st[0].bb, st[0].idx))) is not None
             somes = [s for s, dd in cx.rets(b) if dd[0] == 'agg' and dd[1].endswith('Option::Some')]
             g = somes and (cx.guarded(b, somes[0].bb, f'(lt (self index) (call *{C}::count (field curve (param self))))', True) is not None or
-                           cx.guarded(b, somes[0].bb, '(lt (self index) (len (call Polyline::vertices (field line (field curve (param self))))))', True) is not None)
+                           cx.guarded(b, somes[0].bb, '(lt (self index) (len (call Polyline::vertices (field line (field curve (param self))))))', True) is not None or
+                           # the same test on unsigned integers written as an early return under `index >= count`
+                           cx.guarded(b, somes[0].bb, f'(le (call *{C}::count (field curve (param self))) (self index))', False) is not None or
+                           cx.guarded(b, somes[0].bb, '(le (len (call Polyline::vertices (field line (field curve (param self))))) (self index))', False) is not None)
             cx.ob('EXPR', f'{It}::next', ok and inc and bool(g), 'the iterator yields at_vertex(index) for index < count and then advances by one', where=b.file, found=r)
         b = cx.fn(f'{CP}::iter')
         if b:
